@@ -197,12 +197,10 @@ def summarise(ctx, b, flavour):
     k = K(res, b, ctx)
     items = set()
     removed_blocks = set()
-    for e in res.log:
-        if e["chain"] and e["kind"] not in ("store",) and not (e["kind"] == "call" and (e.get("atomic") or e.get("effect"))):
-            continue
-        fs = ctx.facts_of(ev, e)
-        # single-thread projection: a CAS whose expected value was just loaded from the word it targets cannot fail (retry loops);
-        # any other CAS is a conditional store: success <=> word == expected.  Positive comparisons with REMOVED do not happen.
+    def project(fs):
+        """single-thread projection of a fact set -> (canonical guard strings, infeasible).  A CAS whose expected value was just loaded from the
+        word it targets cannot fail (retry loops); any other CAS is a conditional store: success <=> word == expected.  Positive comparisons
+        with REMOVED do not happen."""
         infeasible = False
         extra = []
         fs2 = []
@@ -225,9 +223,47 @@ def summarise(ctx, b, flavour):
             if f[0] == "cmp" and f[1] == "Eq" and any(tag(x) == "named" and x[1] == "REMOVED_SEGMENT_NODE" for x in (f[2], f[3])):
                 infeasible = True
             fs2.append(f)
-        if infeasible:
+        # a branch on a locally joined flag (`matches!`, `a && b`) is represented by the guards of the edges that set it (sym: _flag_phi_guards)
+        gs = set([repr(k.t(f)) for f in fs2 if not sync_only_fact(f) and not found_ourselves(f) and not (f[0] == "bool" and tag(f[1]) == "phi")] + [repr(x) for x in extra])
+        return gs, infeasible
+
+    back = set(b.back_edges())
+    memo = {}
+
+    def block_guards(bb):
+        """canonical guards at the entry of a top-frame block: the dominating ones plus, at a join, those common to every incoming edge one
+        thread can take (`a && b` written as two branches, a pre-check load before a CAS, ...)"""
+        if bb in memo:
+            return memo[bb]
+        memo[bb] = (set(), False)   # cycle guard
+        gs, inf = project(implied_facts(ev.guards(res, bb)))
+        preds = [p for p in b.pred[bb] if (p, bb) not in back and p in b.reachable and not b.blocks[p]["cleanup"]]
+        if preds and not inf:
+            sets = []
+            for p in preds:
+                pg, pinf = block_guards(p)
+                eg, einf = project(implied_facts(ev.guards_edge(res, p, bb)))
+                if pinf or einf:
+                    continue
+                sets.append(pg | eg)
+            if sets:
+                gs |= set.intersection(*sets)
+            else:
+                inf = True
+        memo[bb] = (gs, inf)
+        return memo[bb]
+
+    for e in res.log:
+        if e["chain"] and e["kind"] not in ("store",) and not (e["kind"] == "call" and (e.get("atomic") or e.get("effect"))):
             continue
-        guards = tuple(sorted(set([repr(k.t(f)) for f in fs2 if not sync_only_fact(f) and not found_ourselves(f)] + [repr(x) for x in extra])))
+        gs, infeasible = project(ctx.facts_of(ev, e))
+        top = e
+        while top.get("parent") is not None:
+            top = top["parent"]
+        tg, tinf = block_guards(top["bb"])
+        if infeasible or tinf:
+            continue
+        guards = tuple(sorted(gs | tg))
         kind = e["kind"]
         if kind == "ret0" and not e["chain"]:
             v = e["value"]
